@@ -48,6 +48,66 @@ impl<'a> Gen<'a> {
         }
     }
 
+    /// a read-only query line (never fault-enumerated, not counted as an operation)
+    pub fn q(&mut self, line: String) -> String { self.run.step(&line, self.o) }
+
+    /// paging / filter / lookup queries of both managers on the current state
+    pub fn op_query_misc(&mut self) {
+        let pools = self.pools();
+        let farms = self.farms();
+        let positions = self.positions();
+        let lim = ["-", "1", "2", "3", "10", "100", "101", "0"][self.r.below(8) as usize];
+        match self.r.below(10) {
+            0 => {
+                let sa = if pools.is_empty() || self.r.chance(1, 2) { "-".to_string() } else { pools[self.r.below(pools.len() as u64) as usize].pool_info.pool_identifier.clone() };
+                self.q(format!("q pools - {} {}", sa, lim));
+            }
+            1 => {
+                let id = if pools.is_empty() || self.r.chance(1, 5) { "o.nope".to_string() } else { pools[self.r.below(pools.len() as u64) as usize].pool_info.pool_identifier.clone() };
+                self.q(format!("q pools {} - -", id));
+            }
+            2 => if let Some(p) = pools.first() {
+                let d = if self.r.chance(1, 4) { "uluna".to_string() } else { self.run.h.w.cd(&p.pool_info.asset_denoms[self.r.below(p.pool_info.asset_denoms.len() as u64) as usize]) };
+                self.q(format!("q decimals {} {}", p.pool_info.pool_identifier, d));
+            },
+            3 => {
+                let sa = if farms.is_empty() || self.r.chance(1, 2) { "-".to_string() } else { farms[self.r.below(farms.len() as u64) as usize].identifier.clone() };
+                self.q(format!("q farms - - {} {}", sa, lim));
+            }
+            4 => if !farms.is_empty() {
+                let f = &farms[self.r.below(farms.len() as u64) as usize];
+                let sa = if self.r.chance(1, 2) { "-".to_string() } else { farms[self.r.below(farms.len() as u64) as usize].identifier.clone() };
+                match self.r.below(3) {
+                    0 => { let id = if self.r.chance(1, 5) { "m-nope".to_string() } else { f.identifier.clone() }; self.q(format!("q farms id {} - -", id)); }
+                    1 => { self.q(format!("q farms lp {} {} {}", self.run.h.w.cd(&f.lp_denom), sa, lim)); }
+                    _ => { self.q(format!("q farms asset {} {} {}", self.run.h.w.cd(&f.farm_asset.denom), sa, lim)); }
+                }
+            },
+            5 => {
+                let sa = if positions.is_empty() || self.r.chance(1, 2) { "-".to_string() } else { positions[self.r.below(positions.len() as u64) as usize].identifier.clone() };
+                self.q(format!("q positions - - - {} {}", sa, lim));
+            }
+            6 => if !positions.is_empty() {
+                let p = &positions[self.r.below(positions.len() as u64) as usize];
+                let o = ["-", "true", "false"][self.r.below(3) as usize];
+                let sa = if self.r.chance(1, 2) { "-".to_string() } else { positions[self.r.below(positions.len() as u64) as usize].identifier.clone() };
+                if self.r.chance(1, 3) { let id = if self.r.chance(1, 5) { "u-nope".to_string() } else { p.identifier.clone() }; self.q(format!("q positions id {} - - -", id)); }
+                else { self.q(format!("q positions recv {} {} {} {}", self.run.h.w.n(p.receiver.as_str()), o, sa, lim)); }
+            },
+            7 => if let Some(lp) = self.some_lp() {
+                let who = ["fm", "u1", "u2", "u3", "u4", "owner"][self.r.below(6) as usize];
+                let e = self.cur_epoch() + 2 - self.r.below(4).min(self.cur_epoch() + 2);
+                self.q(format!("q lpweight {} {} {}", who, lp, e));
+            },
+            _ => {
+                let who = pick_user(self.r);
+                let cur = self.cur_epoch();
+                let u = match self.r.below(4) { 0 => "-".to_string(), 1 => cur.to_string(), 2 => cur.saturating_sub(1 + self.r.below(3)).to_string(), _ => (cur + 1).to_string() };
+                self.q(format!("q rewards {} {}", who, u));
+            }
+        }
+    }
+
     fn pools(&self) -> Vec<mantra_dex_std::pool_manager::PoolInfoResponse> { self.run.h.all_pools() }
 
     fn creation_funds(&mut self) -> Vec<Coin> {
@@ -186,11 +246,29 @@ impl<'a> Gen<'a> {
         let (amt, ms) = if !big && self.r.chance(1, 12) { (res / [100_000u128, 5000, 300][self.r.below(3) as usize] + 1, "0".to_string()) } else { (amt, ms) };
         let recv = self.receiver(sender);
         let funds = if amt == 0 { vec![] } else { vec![coin(amt, pi.assets[oi].denom.clone())] };
-        // C12: the quote an instant before the swap
-        let q: Result<mantra_dex_std::pool_manager::SimulationResponse, _> = self.run.h.w.app.wrap().query_wasm_smart(
-            self.run.h.w.a("pm"), &mantra_dex_std::pool_manager::QueryMsg::Simulation {
-                offer_asset: coin(amt, pi.assets[oi].denom.clone()), ask_asset_denom: pi.assets[ai].denom.clone(), pool_identifier: pi.pool_identifier.clone() });
-        self.run.ms.quote = q.ok().map(|q| (q.return_amount.u128(), q.protocol_fee_amount.u128(), q.swap_fee_amount.u128(), q.burn_fee_amount.u128(), q.extra_fees_amount.u128()));
+        // the real query entry points an instant before the swap: Simulation, ReverseSimulation of a few asks, and (constant
+        // product) the C12 clause "offering quote + 1 yields at least the requested amount" through the queries themselves
+        if amt > 0 && oi != ai {
+            let (od_c, ad_c) = (self.run.h.w.cd(&pi.assets[oi].denom), self.run.h.w.cd(&pi.assets[ai].denom));
+            let pid = pi.pool_identifier.clone();
+            let sim = self.q(format!("q sim {} {} {} {}", pid, od_c, amt, ad_c));
+            let ask_res = pi.assets[ai].amount.u128();
+            let asks = [sim.split_whitespace().nth(1).and_then(|x| x.parse::<u128>().ok()).unwrap_or(0), ask_res / 1000 + 1, ask_res / 3 + 1, 1, ask_res, ask_res.saturating_mul(2)];
+            let ask = asks[self.r.below(asks.len() as u64) as usize];
+            let rev = self.q(format!("q rev {} {} {} {}", pid, ad_c, ask, od_c));
+            if matches!(pi.pool_type, mantra_dex_std::pool_manager::PoolType::ConstantProduct) && rev.starts_with("ok") && ask > 0 {
+                let quoted: u128 = rev.split_whitespace().nth(1).and_then(|x| x.parse().ok()).unwrap_or(0);
+                if let Some(offer1) = quoted.checked_add(1) {
+                    let again = self.q(format!("q sim {} {} {} {}", pid, od_c, offer1, ad_c));
+                    if let Some(ret) = again.strip_prefix("ok ").and_then(|x| x.split_whitespace().next()).and_then(|x| x.parse::<u128>().ok()) {
+                        let f = &pi.pool_fees;
+                        let total: u128 = [f.protocol_fee.share, f.swap_fee.share, f.burn_fee.share].iter().map(|d| d.atomics().u128()).sum::<u128>()
+                            + f.extra_fees.iter().map(|x| x.share.atomics().u128()).sum::<u128>();
+                        self.o.line(&format!("mon_rev {} {} {} {} {} {}", pi.assets[oi].amount, ask_res, ask, total, quoted, ret), "ok");
+                    }
+                }
+            }
+        }
         self.emit(format!("tx {} {} pm swap {} {} {} {} {}", sender, funds_str(&funds), pi.pool_identifier, pi.assets[ai].denom, belief, ms, recv));
     }
 
@@ -242,6 +320,15 @@ impl<'a> Gen<'a> {
         let recv = self.receiver(sender);
         let mut s = format!("{}", ops.len());
         for (i, o_, p) in ops.iter() { s += &format!(" {} {} {}", i, o_, p); }
+        {
+            // route simulations through the real queries (forward, and backward for an amount near the forward result)
+            let mut sq = format!("{}", ops.len());
+            for (i, o_, p) in ops.iter() { sq += &format!(" {} {} {}", self.run.h.w.cd(i), self.run.h.w.cd(o_), p); }
+            let fwd = self.q(format!("q simops {} {}", amt, sq));
+            let out_amt = fwd.split_whitespace().nth(1).and_then(|x| x.parse::<u128>().ok()).unwrap_or(1000);
+            let back = match self.r.below(3) { 0 => out_amt, 1 => out_amt / 2 + 1, _ => 1 + self.r.below(1_000_000) as u128 };
+            self.q(format!("q revops {} {}", back, sq));
+        }
         self.emit(format!("tx {} {} pm route {} {} {} {}", sender, funds_str(&[coin(amt, start_denom)]), s, mr, recv, ms));
     }
 
@@ -417,15 +504,6 @@ impl<'a> Gen<'a> {
         let sender = if ps.is_empty() || self.r.chance(1, 10) { pick_user(self.r).to_string() } else { self.run.h.w.n(ps[self.r.below(ps.len() as u64) as usize].receiver.as_str()) };
         let cur = self.cur_epoch();
         let until = match self.r.below(5) { 0 => cur.saturating_sub(self.r.below(4)).to_string(), 1 => (cur + 1).to_string(), 2 => cur.to_string(), _ => "-".to_string() };
-        // C07: the Rewards query an instant before the claim
-        let uq = if until == "-" { None } else { until.parse::<u64>().ok() };
-        let q: Result<mantra_dex_std::farm_manager::RewardsResponse, _> = self.run.h.w.app.wrap().query_wasm_smart(
-            self.run.h.w.a("fm"), &mantra_dex_std::farm_manager::QueryMsg::Rewards { address: self.run.h.w.astr(&sender), until_epoch: uq });
-        self.run.ms.rewards_quote = match q {
-            Ok(mantra_dex_std::farm_manager::RewardsResponse::RewardsResponse { total_rewards, .. }) =>
-                Some(total_rewards.iter().map(|c| (self.run.h.w.cd(&c.denom), c.amount.u128())).collect()),
-            _ => None,
-        };
         self.emit(format!("tx {} 0 fm claim {}", sender, until));
     }
 
@@ -809,6 +887,7 @@ pub fn gen_pm_case(r: &mut Rng, id: u64, len: u64, faults: bool, o: &mut Out) {
             33 => g.op_advance(),
             34 => g.op_create_position(),
             35 => g.op_withdraw_position(),
+            36 | 37 => { g.op_query_misc(); g.ops += 1; }
             _ => g.op_provide(),
         }
     }
@@ -845,7 +924,7 @@ pub fn gen_fm_case(r: &mut Rng, id: u64, len: u64, faults: bool, o: &mut Out) {
         }
     } else if g.r.chance(1, 4) { g.op_scenario_piecewise_close(); }
     while g.ops < len {
-        match g.r.below(42) {
+        match g.r.below(45) {
             0 => g.op_create_pool(),
             1 | 2 | 3 => g.op_provide(),
             4 | 5 => g.op_swap(),
@@ -865,6 +944,7 @@ pub fn gen_fm_case(r: &mut Rng, id: u64, len: u64, faults: bool, o: &mut Out) {
             39 => if g.r.chance(1, 3) { g.op_scenario_double_autoclose() } else { g.op_advance() },
             40 => if g.r.chance(1, 2) { g.op_scenario_piecewise_close() } else { g.op_advance() },
             41 => match g.r.below(4) { 0 | 1 => g.op_scenario_close_after_claim(), 2 => g.op_scenario_many_farms(), _ => g.op_advance() },
+            42 | 43 | 44 => { g.op_query_misc(); g.ops += 1; }
             _ => g.op_advance(),
         }
     }
